@@ -273,3 +273,83 @@ func post_ValidateChannel_legacy(k Key, ch *Channel, res0 bool) bool {
 	}
 	return res0 == (specBE32(k, 16) == 1325880984 || specBE32(k, 16) == ch.Query[0])
 }
+
+// ---------------------------------------------------------------------------------------------------------
+// SetTarget's encoding of the target (C03, C11: "targets exactly the requested channel"). The levels are what
+// strings.Split returned (recorded), minus a trailing "#". Proved: the exact flag is set unless the target ended
+// in "#/"; bit 22-j is set exactly when level j is a literal (neither '+' nor '#'); no other path bit is set; the
+// hash stored is the hash of the levels joined by '/'.
+func specTargetSplit() []string { return vs.TraceRet[[]string](vs.TraceFind("strings.Split"), 0) }
+func specTargetIsWild() bool {
+	p := specTargetSplit()
+	return p[len(p)-1] == "#"
+}
+func specTargetLen() int { // the number of levels SetTarget encoded (what Split returned, minus a trailing "#")
+	if specTargetIsWild() {
+		return len(specTargetSplit()) - 1
+	}
+	return len(specTargetSplit())
+}
+func specIsLiteral(part string) bool { return part != "+" && part != "#" }
+
+// @ verify (Key).SetTarget as=bits pre=pre_Key post=post_SetTarget_flag,post_SetTarget_bits,post_SetTarget_hash props=C03,C11
+// @ loop (Key).SetTarget 0 inv inv_SetTarget,inv_SetTarget_bits for=bits
+func inv_SetTarget_bits(rangeindex int, parts []string, bitPath uint32, wildcard bool) bool {
+	// after levels 0..rangeindex: their bits are right, the flag is as set before the loop, nothing else is set
+	return (bitPath>>23)&1 == specB2U(!wildcard) && bitPath>>24 == 0 &&
+		vs.Forall(0, 23, func(j int) bool {
+			bit := (bitPath>>(22-uint32(j)))&1 == 1
+			if j <= rangeindex && j < len(parts) {
+				return bit == specIsLiteral(parts[j])
+			}
+			return !bit
+		})
+}
+func specB2U(b bool) uint32 {
+	if b {
+		return 1
+	}
+	return 0
+}
+func post_SetTarget_flag(k Key, res0 error) bool {
+	return res0 != nil || vs.TraceFind("strings.Split") < 0 || (specTargetPath(k)>>23)&1 == specB2U(!specTargetIsWild())
+}
+func post_SetTarget_bits(k Key, res0 error) bool {
+	if res0 != nil || vs.TraceFind("strings.Split") < 0 {
+		return true
+	}
+	parts, n := specTargetSplit(), specTargetLen()
+	tp := specTargetPath(k)
+	return n <= 23 && vs.Forall(0, 23, func(j int) bool {
+		bit := (tp>>(22-uint32(j)))&1 == 1
+		if j < n {
+			return bit == specIsLiteral(parts[j])
+		}
+		return !bit
+	})
+}
+func post_SetTarget_hash(k Key, res0 error) bool {
+	j := vs.TraceFind("strings.Join")
+	if res0 != nil {
+		return true
+	}
+	joined := vs.TraceArg[[]string](j, 0)
+	return j >= 0 && vs.TraceCount("strings.Join") == 1 && vs.TraceArg[string](j, 1) == "/" && len(joined) == specTargetLen() &&
+		specBE32(k, 16) == hash.OfString(vs.TraceRet[string](j, 0))
+}
+
+// The two sides of a key must agree on HOW MANY levels are hashed: SetTarget hashes all the levels of the target;
+// ValidateChannel hashes as many levels as the lowest literal bit of the path says (specTargetDepth), or all the
+// request's levels when there is no literal at all. They agree exactly when the target's LAST level is a literal
+// (or every level is '+'). For a target that ends in '+' levels behind a literal ("a/+/", "a/b/+/#/") they do
+// not: the key then matches no channel at all. ISOLATED obligation - it FAILS on the current tree (known finding
+// C03, executed on the real code: /verif/findings/C03_trailing_plus_demo_test.go).
+// @ verify (Key).SetTarget as=depth pre=pre_Key post=post_SetTarget_depth props=C03
+// @ loop (Key).SetTarget 0 inv inv_SetTarget,inv_SetTarget_bits for=depth
+func post_SetTarget_depth(k Key, res0 error) bool {
+	if res0 != nil || vs.TraceFind("strings.Split") < 0 {
+		return true
+	}
+	d := specTargetDepth(specTargetPath(k) & 0x7fffff)
+	return d == 0 || d == specTargetLen()
+}
